@@ -41,7 +41,8 @@ ctor("MeanSquaredScaledError", "sp", "ignores its `sp` argument: passes the lite
      "constructor", "notes/C04-fix-1.diff")
 for c in ("MiniRocket", "MiniRocketMultivariate"):
     ctor(c, "random_state", "stores np.int32(random_state) for an int and None for anything else "
-         "(np.int64, RandomState are dropped; clone(MiniRocket(random_state=3)) gets random_state=None)")
+         "(np.int64, RandomState are dropped; clone(MiniRocket(random_state=3)) raises RuntimeError)",
+         "notes/C04-fix-6.diff")
 ctor("Rocket", "random_state", "stores random_state only if it is a Python int, None otherwise "
      "(np.int64 / RandomState instances are silently dropped)", "notes/C04-fix-6.diff")
 for p in ("changepoint_prior_scale", "holidays_prior_scale", "seasonality_prior_scale"):
